@@ -467,7 +467,7 @@ def run_c01(ctx: Ctx):
 
 def run_c05(ctx: Ctx):
     ctx.trusted_base = BASE_TRUST
-    thms = ["C05_closed", "C05_unique", "C05_empty", "C05_any", "C05_post_init", "pep440_not_dense_refuted"]
+    thms = ["C05_closed", "C05_unique", "C05_empty", "C05_any", "C05_post_init"]
     proof_step(ctx, "Props/C05.v", thms, extra_targets=["Model/Corr.v"])
     n, _ = sizes(ctx)
     pairs = corpus_pairs() + spec_pairs(ctx, n, exhaustive=(ctx.tier == "thorough"))
